@@ -440,31 +440,37 @@ pub fn eof_matrix(rep: &mut Report) {
     use serde_json::json;
     let st = Start::plain();
     for n in 1..=3usize {
-        let combos = 4usize.pow(n as u32);
+        // Per input: writer gone or not x fill level {empty, one sample, full}.
+        let combos = 6usize.pow(n as u32);
         for combo in 0..combos {
-            let bits: Vec<(bool, bool)> = (0..n).map(|i| ((combo >> (2 * i)) & 1 == 1, (combo >> (2 * i + 1)) & 1 == 1)).collect();
-            // (gone, nonempty)
+            let bits: Vec<(bool, usize)> = (0..n)
+                .map(|i| {
+                    let d = (combo / 6usize.pow(i as u32)) % 6;
+                    (d % 2 == 1, d / 2)
+                })
+                .collect();
             verif::clear_stream_specs();
             let mut ins: Vec<Box<dyn InPort>> = vec![];
+            let many = || bv(&[1u64; 64]);
             let mut block: Box<dyn Block> = match n {
                 1 => {
-                    let (ia, ra) = sin(&st, bv(&[1]), vec![]);
+                    let (ia, ra) = sin(&st, many(), vec![]);
                     ins.push(ia);
                     let (b, _x) = D11::new(ra, 0u64);
                     bx(b)
                 }
                 2 => {
-                    let (ia, ra) = sin(&st, bv(&[1]), vec![]);
-                    let (ib, rb) = sin(&st, bv(&[1]), vec![]);
+                    let (ia, ra) = sin(&st, many(), vec![]);
+                    let (ib, rb) = sin(&st, many(), vec![]);
                     ins.push(ia);
                     ins.push(ib);
                     let (b, _x) = D21::new(ra, rb);
                     bx(b)
                 }
                 _ => {
-                    let (ia, ra) = sin(&st, bv(&[1]), vec![]);
-                    let (ib, rb) = sin(&st, bv(&[1]), vec![]);
-                    let (ic, rc) = sin(&st, bv(&[1]), vec![]);
+                    let (ia, ra) = sin(&st, many(), vec![]);
+                    let (ib, rb) = sin(&st, many(), vec![]);
+                    let (ic, rc) = sin(&st, many(), vec![]);
                     ins.push(ia);
                     ins.push(ib);
                     ins.push(ic);
@@ -472,14 +478,24 @@ pub fn eof_matrix(rep: &mut Report) {
                     bx(b)
                 }
             };
-            for (i, (gone, nonempty)) in bits.iter().enumerate() {
-                if *nonempty {
-                    ins[i].feed(1);
+            for (i, (gone, level)) in bits.iter().enumerate() {
+                match level {
+                    1 => {
+                        ins[i].feed(1);
+                    }
+                    2 => {
+                        let c = ins[i].capacity();
+                        assert!(c <= 64);
+                        ins[i].feed(c);
+                        assert_eq!(ins[i].free(), 0);
+                    }
+                    _ => {}
                 }
                 if *gone {
                     ins[i].close();
                 }
             }
+            let bits: Vec<(bool, bool)> = bits.iter().map(|(g, l)| (*g, *l > 0)).collect();
             let want = bits.iter().all(|(g, ne)| *g && !*ne);
             let got = catch(|| BlockEOF::eof(&mut *block));
             rep.evaluations += 1;
@@ -489,7 +505,7 @@ pub fn eof_matrix(rep: &mut Report) {
                 Ok(g) if g == want => {}
                 Ok(g) => rep.violation(
                     format!("C19/derive-eof/{}", if g { "true-too-early" } else { "never-true" }),
-                    format!("{n} inputs, (gone, non-empty) per input = {bits:?}: generated eof() = {g}, want {want}"),
+                    format!("{n} inputs, (gone, non-empty) per input = {bits:?} (combination {combo}: per input gone + 2 x level, level 2 = completely full): generated eof() = {g}, want {want}"),
                     json!({"engine": "derive-eof", "n": n, "combo": combo}),
                 ),
                 Err(p) => rep.violation(
